@@ -23,7 +23,7 @@ package prefork
 //     pid is gone or no longer ours), no per-child Wait goroutine is left;
 //   * a child that provably ignored SIGTERM at teardown died of SIGKILL, and prefork did not return
 //     earlier than ShutdownGracePeriod after the last master-side event; prefork returns at all
-//     (watchdog = grace + >=10 s slack).
+//     (watchdog = grace + 15 s).
 // Only lower bounds and generous watchdogs are used for time, so a slow machine cannot raise an alarm.
 
 import (
@@ -529,7 +529,7 @@ func vpC39RunScenario(sc *vpC39Scenario, dir string) *vpC39Result {
 	drvDone := make(chan struct{})
 	go func() { defer close(drvDone); r.driver(done) }()
 
-	watchdog := sc.Grace + 30*time.Second
+	watchdog := sc.Grace + 15*time.Second
 	returned := true
 	select {
 	case <-done:
